@@ -394,4 +394,210 @@ theorem env_timer (s : St) (t : Nat) (tk : Task) (ht : s.tasks[t]? = some tk) {n
     exact ⟨_, rfl, rfl, rfl, rfl, Or.inr ⟨_, hst, rfl, _, rfl⟩⟩
   · exact ⟨tkj, hj, EnvTask.refl tkj⟩
 
+
+/-! ### every section, every step, every reachable state -/
+
+
+/-- **every section of a task preserves the invariant** (until `chart.run` returns) -/
+theorem struct_stepTask {P : Program} {depth : Node → Nat} (hp : LiveP P depth) (c : Ctx) (hcP : c.P = P) {s : St}
+    (hs : Struct P depth s) {out : Out} (h : stepTask c s = some out) (hv : Obs.badOracle ∉ out.2) :
+    out.1.outcome ≠ none ∨ Struct P depth out.1 := by
+  unfold stepTask at h
+  split at h
+  · cases h
+  · next tk htk =>
+    have hmc : tk.mustCancel = false := hs.data.noCancel tk (List.mem_of_getElem? htk)
+    split at h
+    · next rv hst =>
+      simp only [hmc, Bool.false_eq_true, if_false] at h
+      cases hs.tasks c.t tk htk with
+      | callerStart hn hfr hst' hlen hp0 he0 hs0 =>
+        rw [hfr] at h
+        simp only [Option.some.injEq] at h
+        subst h
+        exact struct_mgrStart hp c hcP hs htk hn hlen hp0 he0 hs0 []
+      | callerWait hn hfr hst' =>
+        rw [hfr] at h
+        simp only [Option.some.injEq] at h
+        subst h
+        exact struct_mgrCheck hp c hcP hs htk hn hfr ⟨_, hst⟩ []
+      | main F d0 hn hfr hdf hdag hdest hout hst' =>
+        rw [hfr] at h
+        right
+        cases hdf with
+        | init =>
+          simp only [Option.some.injEq] at h
+          subst h
+          exact struct_dagInit_task hp c hcP hs htk ⟨_, hst⟩ hfr [] hv
+        | launch _ m r _ _ _ =>
+          simp only [Option.some.injEq] at h
+          subst h
+          exact struct_launch_resume hp c hcP hs htk ⟨_, hst⟩ hfr []
+        | wait _ _ =>
+          simp only [Option.some.injEq] at h
+          subst h
+          exact struct_wait_resume hp c hcP hs htk ⟨_, hst⟩ hfr []
+      | mainDone hn hfr hst' hres => rw [hst'] at hst; cases hst
+      | nodeStart d0 q hn hns hfr hst' =>
+        rw [hfr] at h
+        simp only [Option.some.injEq] at h
+        subst h
+        exact Or.inr (struct_nodeStart hp c hcP hs htk hn hns hfr ⟨_, hst⟩ [])
+      | nodeWait d0 q hn hns hfr hst' hproc =>
+        rw [hfr] at h
+        simp only [Option.some.injEq] at h
+        subst h
+        have hev : s.evSet q = true := by
+          rcases hst' with ⟨_, h⟩ | h
+          · exact h
+          · rw [h] at hst; cases hst
+        exact Or.inr (struct_node_read hp c hcP hs htk hn hns hfr ⟨_, hst⟩ hproc hev [])
+      | nodeExec d0 q pc hn hns hfr hpc1 hpc2 hlive hproc hnores hrests =>
+        rw [hfr] at h
+        right
+        have x : NCtx P depth c s s tk d0 q pc :=
+          ⟨hp, hcP, hs, htk, hn, hns, hfr, ⟨_, hst⟩, Or.inl ⟨rfl, by cases pc <;> simp_all [NodePc.exec], hproc, hnores⟩⟩
+        cases pc with
+        | body k kw inv =>
+          cases rv with
+          | body o =>
+            simp only [Option.some.injEq] at h
+            subst h
+            exact x.afterBody k kw inv []
+          | go => simp at h
+          | ret v => simp at h
+        | sleep k kw inv =>
+          simp only [Option.some.injEq] at h
+          subst h
+          exact x.attempt (k + 1) kw inv []
+        | _ => simp [NodePc.rests] at hrests
+      | nodeDone q r0 hn hns hfr hst' hnc hev => rw [hst'] at hst; cases hst
+      | swStart d0 S0 hn hsS hfr hno1 hst' =>
+        rw [hfr] at h
+        simp only [Option.some.injEq] at h
+        subst h
+        exact Or.inr (struct_switchStart hp c hcP hs htk hn hsS hfr hno1 hst' [] hv)
+      | swIn F sub d0 S0 hn hsS hfr hdf hsub hst' =>
+        rw [hfr] at h
+        right
+        cases hdf with
+        | init =>
+          simp only [Option.some.injEq] at h
+          subst h
+          exact struct_dagInit_task hp c hcP hs htk ⟨_, hst⟩ hfr [] hv
+        | launch _ m r _ _ _ =>
+          simp only [Option.some.injEq] at h
+          subst h
+          exact struct_launch_resume hp c hcP hs htk ⟨_, hst⟩ hfr []
+        | wait _ _ =>
+          simp only [Option.some.injEq] at h
+          subst h
+          exact struct_wait_resume hp c hcP hs htk ⟨_, hst⟩ hfr []
+      | swRet d0 S0 hn hsS hfr hst' hsw =>
+        rw [hfr] at h
+        obtain ⟨v, hv'⟩ := hst'
+        rw [hv'] at hst
+        cases hst
+        simp only [Option.some.injEq] at h
+        subst h
+        right
+        have hself : (notifyAll s ((c.P.g.desc1 S0).map Key.node)).tasks[c.t]? = some tk := by
+          rw [(Ext.notifyAll (t := c.t) _ (fun tk0 h => by rw [htk] at h; cases h; exact ⟨_, hv'⟩)).self]; exact htk
+        rw [retTo_eq_nil c _ _ _ hself, hcP]
+        exact struct_switch_ret hp hs htk hn hsS hfr ⟨_, hv'⟩ hsw _ rfl rfl rfl rfl
+      | swDone S0 r0 hn hsS hfr hst' hnc hok => rw [hst'] at hst; cases hst
+    · cases h
+
+theorem struct_init (P : Program) (depth : Node → Nat) : Struct P depth init := by
+  have htasks : init.tasks = [{ frames := [.mgrStart], st := .runnable .go, name := .caller }] := rfl
+  refine ⟨⟨fun n => ⟨rfl, rfl⟩, ?_, ?_, ?_, ?_, ?_, ?_, ?_, ?_, ?_, ?_⟩, ?_, ⟨_, rfl, rfl⟩, ?_⟩
+  · intro n v h; cases h
+  · intro n h; cases h
+  · intro n h; cases h
+  · intro n h; cases h
+  · intro S l c h; cases h
+  · intro S lc h; cases h
+  · intro n h; cases h
+  · intro n h; cases h
+  · intro i j ti tj q d1 d2 f1 f2 p1 p2 hi _ hfi
+    rw [htasks] at hi
+    match i, hi with
+    | 0, hi => simp at hi; rw [← hi] at hfi; simp at hfi
+    | n + 1, hi => simp at hi
+  · intro tk htk
+    rw [htasks] at htk
+    simp only [List.mem_cons, List.not_mem_nil, or_false] at htk
+    rw [htk]
+  · intro i tk hi
+    rw [htasks] at hi
+    match i, hi with
+    | 0, hi =>
+      simp at hi; subst hi
+      exact .callerStart _ rfl rfl ⟨_, rfl⟩ rfl (fun _ => rfl) (fun _ => rfl) (fun _ => rfl)
+    | n + 1, hi => simp at hi
+  · intro tk h0 hf
+    have : tk = { frames := [.mgrStart], st := .runnable .go, name := .caller } := by
+      rw [htasks] at h0; simp at h0; exact h0.symm
+    rw [this] at hf; simp at hf
+
+/-- the runs of a pending pipeline: the steps of the model before `chart.run` returns, in which the launch orders the
+scheduler proposes are admissible answers of `_get_node_order`, and nobody cancels the caller -/
+inductive LiveReach (P : Program) : St → Prop
+  | init : LiveReach P init
+  | step {s s' : St} {ch : Choice} {obs : List Obs} : LiveReach P s → s.outcome = none → ch ≠ .cancelCaller →
+      step P s ch = some (s', obs) → Obs.badOracle ∉ obs → LiveReach P s'
+
+theorem LiveReach.reach {P : Program} {s : St} (h : LiveReach P s) : Reach P s := by
+  induction h with
+  | init => exact .init
+  | step _ _ _ hs _ ih => exact .step ih hs
+
+/-- **every step of a pending run preserves the invariant** -/
+theorem struct_step {P : Program} {depth : Node → Nat} (hp : LiveP P depth) {s s' : St} (hs : Struct P depth s)
+    {ch : Choice} {obs : List Obs} (hch : ch ≠ .cancelCaller) (h : step P s ch = some (s', obs))
+    (hv : Obs.badOracle ∉ obs) : s'.outcome ≠ none ∨ Struct P depth s' := by
+  cases ch with
+  | run t ord pick => exact struct_stepTask hp { P := P, t := t, ord := ord, pick := pick } rfl hs h hv
+  | gate n inv att =>
+    simp only [step] at h
+    split at h
+    · cases h
+    · simp only [Option.some.injEq, Prod.mk.injEq] at h
+      rw [← h.1]
+      exact Or.inr (struct_env hs (env_gate s n inv att))
+  | timer t =>
+    simp only [step] at h
+    split at h
+    · next tk htk =>
+      split at h
+      · next hst =>
+        simp only [Option.some.injEq, Prod.mk.injEq] at h
+        rw [← h.1]
+        exact Or.inr (struct_env hs (env_timer s t tk htk hst))
+      · cases h
+    · cases h
+  | cancelCaller => exact absurd rfl hch
+
+theorem live_inv {P : Program} {depth : Node → Nat} (hp : LiveP P depth) {s : St} (h : LiveReach P s) :
+    s.outcome ≠ none ∨ Struct P depth s := by
+  induction h with
+  | init => exact Or.inr (struct_init P depth)
+  | step _ hout hch hs hv ih =>
+    rcases ih with h | h
+    · exact absurd hout h
+    · exact struct_step hp h hch hs hv
+
+/-- **a pending run of a pipeline with switches is never stuck**: in every state the model reaches while `chart.run` has
+not returned, some task is runnable, or a node body or a retry timer is outstanding — under every schedule, every
+order of node completions, every admissible launch order, every body outcome and every failing collaborator -/
+theorem live_not_stuck {P : Program} {depth : Node → Nat} (hp : LiveP P depth) {s : St} (h : LiveReach P s) :
+    stuck s = false := by
+  rcases live_inv hp h with h1 | h1
+  · unfold stuck
+    cases ho : s.outcome with
+    | none => exact absurd ho h1
+    | some o => rfl
+  · obtain ⟨i, tk, hi, hl⟩ := struct_live hp h1
+    exact not_stuck_of_live hi hl
+
 end MLPE.Eng
